@@ -4,6 +4,7 @@ import (
 	"time"
 
 	"github.com/karagenc/socket.io-go/internal/sync"
+	"github.com/karagenc/socket.io-go/internal/vhook"
 
 	eio "github.com/karagenc/socket.io-go/engine.io"
 	eioparser "github.com/karagenc/socket.io-go/engine.io/parser"
@@ -225,6 +226,7 @@ func (m *Manager) onParserFinish(header *parser.PacketHeader, eventName string, 
 		header.Namespace = "/"
 	}
 
+	vhook.Event("mgr.finish", "m", m, "type", int(header.Type), "nsp", header.Namespace, "name", eventName)
 	socket, ok := m.sockets.get(header.Namespace)
 	if !ok {
 		return
